@@ -214,6 +214,14 @@ example :
     (lz4Decode b [0, 0, 0, 2, 0x55, 7, 8]).toOption = some [7, 8] ∧
     (lz4Decode b [0, 0, 0]).toOption = none := by decide
 
+/-- FULL STATEMENT the property suggests ("a corrupt compressed body yields an error") is not provable
+    for the lz4 wrapper as coded: lz4.go never compares the number of bytes the block decoder produced
+    with the declared length, so a body whose prefix over-declares is accepted and returned short.
+    Kernel-checked witness (block decoder = "copy"): prefix says 5, one byte comes back, no error. -/
+theorem C18_cex_lz4_length_unchecked :
+    let b : BlockCodec := { encB := fun x => .ok x, decB := fun src n => .ok (src.take n) }
+    lz4Prefix [0, 0, 0, 5, 0x41] = 5 ∧ (lz4Decode b [0, 0, 0, 5, 0x41]).toOption = some [0x41] := by decide
+
 /-! ### negotiation -/
 
 /-- **Negotiation.** The configured compressor survives startup iff its name is in the server's
